@@ -39,6 +39,14 @@ Record laws {V} (o : ops V) : Prop := {
   null_dichotomy : is_null o (null o) = true \/ forall x, is_null o x = false
 }.
 
+(* sums of non-null values are non-null (true of floats and of never-null integer
+   dtypes; for sentinel-null integers it is the side condition "no partial sum equals
+   the sentinel") *)
+Definition sum_closed {V} (o : ops V) : Prop :=
+  (forall x y, is_null o x = false -> is_null o y = false -> is_null o (add o x y) = false) /\
+  (forall x, is_null o x = false -> is_null o (sq o x) = false) /\
+  is_null o (zero o) = false.
+
 (* ---------- integers ---------- *)
 Definition MIN_INT : Z := - 2 ^ 63.
 
@@ -53,6 +61,9 @@ Proof.
   constructor; simpl; intros; try lia.
   destruct nullable; simpl; auto.
 Qed.
+
+Lemma zops_never_null_closed nullv : sum_closed (zops false nullv).
+Proof. repeat split; reflexivity. Qed.
 
 (* ---------- floats (exact) ---------- *)
 Inductive fl := FNan | FFin (q : Qc).
@@ -107,4 +118,11 @@ Proof.
     unfold Qc_leb, Qc_ltb, Qccompare. rewrite <- (Qcompare_antisym a b).
     destruct (Qcompare a b); reflexivity.
   - left; reflexivity.
+Qed.
+
+Lemma fops_sum_closed : sum_closed fops.
+Proof.
+  repeat split; simpl.
+  - intros [|a] [|b]; simpl; congruence.
+  - intros [|a]; simpl; congruence.
 Qed.
